@@ -41,9 +41,17 @@ type simStore struct {
 	log                *eventLog
 	fSave, fDel, fLoad bool
 	alias              bool // Load hands out the internal buffer, like the package's own in-memory map
+	// slow Save
+	cond   *sync.Cond
+	gate   bool
+	atGate bool
 }
 
-func newSimStore(log *eventLog) *simStore { return &simStore{m: map[uint][]byte{}, log: log} }
+func newSimStore(log *eventLog) *simStore {
+	s := &simStore{m: map[uint][]byte{}, log: log}
+	s.cond = sync.NewCond(&s.mu)
+	return s
+}
 
 func (s *simStore) Load(key uint) ([]byte, error) {
 	s.mu.Lock()
@@ -70,6 +78,12 @@ func (s *simStore) Save(key uint, value net.Buffers) error {
 	}
 	s.mu.Lock()
 	defer s.mu.Unlock()
+	for s.gate {
+		// a slow store: the Save takes effect when the script says so
+		s.atGate = true
+		s.cond.Wait()
+	}
+	s.atGate = false
 	if s.fSave {
 		s.fSave = false
 		s.log.add("ev savefail %x", key)
@@ -157,6 +171,7 @@ type simConn struct {
 	readArmed       bool
 	delivered       []byte // everything handed to the client so far
 	atStall         bool   // a Read waits for a broker that sends nothing
+	expired         bool   // the read deadline fired and was not set again: further Reads fail at once, as with package net
 	strictDeadlines bool   // deadline calls fail once the connection is closed (package net behaviour)
 	// slow Close
 	closeGate   bool
@@ -208,6 +223,9 @@ func (c *simConn) Read(p []byte) (int, error) {
 		if len(c.inq) == 0 {
 			return 0, io.EOF
 		}
+		if c.expired {
+			return 0, timeoutErr{}
+		}
 		h := &c.inq[0]
 		switch h.kind {
 		case "data":
@@ -221,6 +239,7 @@ func (c *simConn) Read(p []byte) (int, error) {
 			return n, nil
 		case "timeout":
 			c.inq = c.inq[1:]
+			c.expired = true
 			return 0, timeoutErr{}
 		case "hard":
 			c.inq = c.inq[1:]
@@ -332,6 +351,7 @@ func (c *simConn) SetReadDeadline(t time.Time) error {
 		return net.ErrClosed
 	}
 	c.readArmed = !t.IsZero()
+	c.expired = false
 	return nil
 }
 
